@@ -79,6 +79,49 @@ var c06kinds = []c06kind{
 
 var c06servers = []string{"s1.example", "s2.example:8448", "s3.example", "[2001:db8::1]:443"}
 
+// c06NoAuthoriserNamed: a join whose join_authorised_via_users_server is null or the empty string names no user, so
+// there is no authorising user's server to require a signature from: the sender's server's signature is all it takes
+// (the auth rules and HandleSendJoin read the member the same way).
+func c06NoAuthoriserNamed(c *mon.Ctx, ids map[string]*gen.Identity) {
+	for _, ver := range sortedVersions() {
+		t := ref.Traits(string(ver))
+		if t == nil || ver == gmsl.RoomVersionPseudoIDs {
+			continue
+		}
+		for _, via := range []string{"null", `""`} {
+			c.Case("verify:no-authoriser-named:"+string(ver), map[string]any{"version": ver, "join_authorised_via_users_server": via}, func() {
+				c.Nontrivial(fmt.Sprintf("no-authoriser|%s|%s", ver, via))
+				srv := c06servers[0]
+				sender := "@joiner:" + srv
+				ps := protoSpec{Type: "m.room.member", StateKey: strp(sender), Sender: sender, RoomID: "!room:" + srv, Depth: 5,
+					Content: []byte(`{"membership":"join","join_authorised_via_users_server":` + via + `}`), Prev: []string{"$prev:" + srv}, Auth: []string{"$create:" + srv}}
+				if t.Domainless {
+					ps.RoomID = "!" + strings.Repeat("A", 43)
+					ps.Prev, ps.Auth = []string{"$" + strings.Repeat("B", 43)}, []string{}
+				} else if t.EventIDFormat >= 2 {
+					ps.Prev, ps.Auth = []string{"$" + strings.Repeat("B", 43)}, []string{"$" + strings.Repeat("C", 43)}
+				}
+				ev, err := buildEvent(ver, ps, ids[srv], baseTime)
+				if err != nil {
+					c.Count("no_authoriser_named_unbuildable")
+					return
+				}
+				u, err := gmsl.MustGetRoomVersion(ver).NewEventFromUntrustedJSON(ev.JSON())
+				if err != nil {
+					c.Count("no_authoriser_named_unparsable")
+					return
+				}
+				db := newMemKeyDB()
+				db.set(srv, "ed25519:main", ids[srv].Pub, farFuture, 0)
+				c.Count("verifications_without_a_named_authoriser")
+				if verr := gmsl.VerifyEventSignatures(context.Background(), u, &gmsl.KeyRing{KeyDatabase: db}, userIDForSender); verr != nil {
+					c.Failf("verify:rejects-valid:authoriser-member-names-nobody", "v%s: a join with join_authorised_via_users_server = %s, validly signed by its sender's server, fails verification: %v", ver, via, verr)
+				}
+			})
+		}
+	}
+}
+
 func runC06(c *mon.Ctx) {
 	kr := c.RandShared("keys")
 	ids := map[string]*gen.Identity{}
@@ -91,6 +134,7 @@ func runC06(c *mon.Ctx) {
 	}
 	unknown := gen.NewIdentity(kr, "unrelated.example", "ed25519:u")
 	if c.Shard == 0 {
+		c06NoAuthoriserNamed(c, ids)
 		c06SmuggledAuthoriser(c, ids)
 	}
 	r := c.RandShared("cases")
